@@ -161,6 +161,9 @@ class StoreProxy:
             await asyncio.Event().wait()  # the process is gone: this write never "returns"
 
     async def update_handler_status(self, run_id, **kw):
+        cb = getattr(self, "on_status_write_start", None)
+        if cb is not None:
+            cb(run_id, kw)  # harness observer: a status write is about to begin (before its latency)
         await self._pause(write=True)
         if self._should_fail("update_handler_status"):
             raise OSError("injected store write failure")
